@@ -38,10 +38,12 @@ class Convert(HarnessBase):
 
     def __init__(self, kind, u1, u2):
         self.kind, self.u1, self.u2 = kind, u1, u2
+        us = si.units_of(kind)
+        self.u3 = us[(us.index(u2) + 1) % len(us)]       # a third unit for two-step chains
         self.name = 'convert:%s:%s->%s' % (kind, u1, u2)
 
     def describe(self):
-        return dict(kind=self.kind, source_unit=self.u1, target_unit=self.u2)
+        return dict(kind=self.kind, source_unit=self.u1, target_unit=self.u2, third_unit=self.u3)
 
     def finding_key(self, ob, values):
         return 'convert:%s:%s->%s:%s' % (self.kind, self.u1, self.u2, ob.family)
@@ -56,6 +58,15 @@ class Convert(HarnessBase):
         v2, z = _mk(env, self.kind, 'v', self.u1)
         r = z.to(self.u2, inplace=True)
         rec.update(inplace_value=z.value, inplace_unit=z.unit, inplace_returns_self=r is z)
+        # two-step histories on the object that was converted in place: copy on to a third unit, compare it with a
+        # fresh quantity of the same magnitude, convert it back in place
+        w = z.to(self.u3)
+        rec.update(chain_copy_value=w.value, chain_copy_unit=w.unit)
+        fresh = _mk(env, self.kind, 'v', self.u1)[1]
+        rec['inplace_equals_fresh'] = bool(z == fresh) and bool(fresh == z) and not bool(z != fresh) \
+            and not bool(z < fresh) and not bool(z > fresh)
+        z.to(self.u1, inplace=True)
+        rec.update(chain_back_value=z.value, chain_back_unit=z.unit)
         return rec
 
     def obligations(self, out):
@@ -75,6 +86,12 @@ class Convert(HarnessBase):
             eq('conv.round_trip', rec['back_value'], v, tol=1e-12),
             holds('conv.round_trip_unit', rec['back_unit'] == self.u1),
             holds('conv.inplace_returns_self', rec['inplace_returns_self']),
+            eq('conv.inplace_then_copy', rec['chain_copy_value'],
+               v * z3.RealVal(si.SI[self.kind][self.u1] / si.SI[self.kind][self.u3]), tol=1e-12),
+            holds('conv.inplace_then_copy_unit', rec['chain_copy_unit'] == self.u3),
+            eq('conv.inplace_round_trip', rec['chain_back_value'], v, tol=1e-12),
+            holds('conv.inplace_round_trip_unit', rec['chain_back_unit'] == self.u1),
+            holds('conv.inplace_converted_equals_fresh', rec['inplace_equals_fresh']),
         ]
         return obs
 
@@ -92,6 +109,14 @@ class Compare(HarnessBase):
 
     def describe(self):
         return dict(kind=self.kind, left_unit=self.u1, right_unit=self.u2)
+
+    def boundary_excuse(self, sym_out, conc_out):
+        # `x == x.to(u)` is exact in real arithmetic; its floating-point content (round-trip rounding against the
+        # absolute 1e-12 band, recorded finding fp:self_compare:wide) is the FP harness' subject, not a proxy error
+        if sym_out.ok and conc_out.ok:
+            a, b = sym_out.value, conc_out.value
+            return all(a[k] == b[k] for k in OPS)
+        return False
 
     def finding_key(self, ob, values):
         if ob.family.endswith('_everywhere'):
@@ -168,11 +193,13 @@ def build(sp):
 
 
 JOB_CAP = {'quick': 900, 'thorough': 3000}
-REQUIRED_TRIGGERS = {'quick': ('conv.value_is_si_ratio', 'conv.copy_equals_inplace', 'conv.round_trip',
+REQUIRED_TRIGGERS = {'quick': ('conv.value_is_si_ratio', 'conv.copy_equals_inplace', 'conv.round_trip', 'conv.inplace_then_copy',
+                               'conv.inplace_round_trip', 'conv.inplace_converted_equals_fresh',
                                'cmp.order_outside_abs_band', 'cmp.self_conversion_equal_both_ways')}
 BOUNDS = {
-    'quick': 'conversions: all 13 kinds x every ordered pair of their units (607, exhaustive), magnitude any real allowed by '
-             'the kind; comparisons: one same-unit and three seeded cross-unit pairs per kind, both magnitudes any real; FP: '
+    'quick': 'conversions: all 13 kinds x every ordered pair of their units (607, exhaustive; copy, in place, there and back, and the '
+             'two-step histories in-place-then-copy to a third unit / in-place round trip / comparison of the in-place converted object with a '
+             'fresh one), magnitude any real allowed by the kind; comparisons: one same-unit and three seeded cross-unit pairs per kind, both magnitudes any real; FP: '
              'x == x.to(u) in both directions for 12 seeded (kind, unit pair) cells, doubles with |x| in [1e-9,1e9], 25 s/query',
     'thorough': 'comparisons on every ordered unit pair; FP: 60 cells, 180 s/query',
 }
